@@ -401,6 +401,10 @@ func (r *row) FindValuesAtPath(path string) ([]Value, bool) {
 		return nil, false
 	}
 
+	if len(keys) == 1 {
+		return []Value{value}, true
+	}
+
 	if cast, ok := value.(Row); ok {
 		return cast.FindValuesAtPath(keys[1])
 	}
@@ -693,95 +697,127 @@ func handledelim(t json.Token, dec *json.Decoder) (res interface{}, err error) {
 func (r *row) GetString(key string) string {
 	result, _ := cast.ToString(r.GetOrNil(key))
 
-	return result.(string)
+	casted, _ := result.(string)
+
+	return casted
 }
 
 func (r *row) GetInt(key string) int {
 	result, _ := cast.ToInt(r.GetOrNil(key))
 
-	return result.(int)
+	casted, _ := result.(int)
+
+	return casted
 }
 
 func (r *row) GetInt64(key string) int64 {
 	result, _ := cast.ToInt64(r.GetOrNil(key))
 
-	return result.(int64)
+	casted, _ := result.(int64)
+
+	return casted
 }
 
 func (r *row) GetInt32(key string) int32 {
 	result, _ := cast.ToInt32(r.GetOrNil(key))
 
-	return result.(int32)
+	casted, _ := result.(int32)
+
+	return casted
 }
 
 func (r *row) GetInt16(key string) int16 {
 	result, _ := cast.ToInt16(r.GetOrNil(key))
 
-	return result.(int16)
+	casted, _ := result.(int16)
+
+	return casted
 }
 
 func (r *row) GetInt8(key string) int8 {
 	result, _ := cast.ToInt8(r.GetOrNil(key))
 
-	return result.(int8)
+	casted, _ := result.(int8)
+
+	return casted
 }
 
 func (r *row) GetUint(key string) uint {
 	result, _ := cast.ToUint(r.GetOrNil(key))
 
-	return result.(uint)
+	casted, _ := result.(uint)
+
+	return casted
 }
 
 func (r *row) GetUint64(key string) uint64 {
 	result, _ := cast.ToUint64(r.GetOrNil(key))
 
-	return result.(uint64)
+	casted, _ := result.(uint64)
+
+	return casted
 }
 
 func (r *row) GetUint32(key string) uint32 {
 	result, _ := cast.ToUint32(r.GetOrNil(key))
 
-	return result.(uint32)
+	casted, _ := result.(uint32)
+
+	return casted
 }
 
 func (r *row) GetUint16(key string) uint16 {
 	result, _ := cast.ToUint16(r.GetOrNil(key))
 
-	return result.(uint16)
+	casted, _ := result.(uint16)
+
+	return casted
 }
 
 func (r *row) GetUint8(key string) uint8 {
 	result, _ := cast.ToUint8(r.GetOrNil(key))
 
-	return result.(uint8)
+	casted, _ := result.(uint8)
+
+	return casted
 }
 
 func (r *row) GetFloat64(key string) float64 {
 	result, _ := cast.ToFloat64(r.GetOrNil(key))
 
-	return result.(float64)
+	casted, _ := result.(float64)
+
+	return casted
 }
 
 func (r *row) GetFloat32(key string) float32 {
 	result, _ := cast.ToFloat32(r.GetOrNil(key))
 
-	return result.(float32)
+	casted, _ := result.(float32)
+
+	return casted
 }
 
 func (r *row) GetBool(key string) bool {
 	result, _ := cast.ToBool(r.GetOrNil(key))
 
-	return result.(bool)
+	casted, _ := result.(bool)
+
+	return casted
 }
 
 func (r *row) GetBytes(key string) []byte {
 	result, _ := cast.ToBinary(r.GetOrNil(key))
 
-	return result.([]byte)
+	casted, _ := result.([]byte)
+
+	return casted
 }
 
 func (r *row) GetTime(key string) time.Time {
 	result, _ := cast.ToTime(r.GetOrNil(key))
 
-	return result.(time.Time)
+	casted, _ := result.(time.Time)
+
+	return casted
 }
